@@ -129,7 +129,7 @@ Step(hv2) == /\ l' = l + 1 /\ st' = S2 /\ hv' = HvIssued(hv2, S2)
 
 TReset == /\ IsEv("reset")
           /\ l' = l + 1 /\ st' = S2 /\ hv' = HvIssued(EmptyHist(DOMAIN S2.w), S2)
-          /\ aux' = [nodeUp |-> TRUE, dirty |-> {}, pre |-> S2, hvpre |-> EmptyHist(DOMAIN S2.w), ope |-> E, fresh |-> {}]
+          /\ aux' = [nodeUp |-> TRUE, dirty |-> {}, pre |-> S2, hvpre |-> EmptyHist(DOMAIN S2.w), ope |-> E, fresh |-> {}, mustRevert |-> {}]
 
 \* ---- init_send --------------------------------------------------------
 InitArgs(e, post) ==
@@ -498,13 +498,18 @@ TCrash ==
 
 \* ---- forks, restore, scan, injected divergence (C16, C18) ---------------------
 Utxo2 == ToSet(Rec[l].obs.utxo)
+\* confirmed incoming payments that a reorganisation has just removed (output Unspent before,
+\* gone from the chain now, kernel gone): each must be reported reverted by the wallet's next
+\* SUCCESSFUL scan, whatever happened in between (a failed scan, a node hiccup)
 TFork ==
   /\ IsEv("fork")
-  /\ LET e == E IN
+  /\ LET e == E
+         gone(w) == IF Readable(Rec[l].obs.w[w]) THEN VanishedReceived(S2, w, Utxo2) ELSE {} IN
      /\ CheckMatch(Ok(e), e, "Fork:failed")
      /\ Ok(e) => MatchState(Fork(st, e.depth, ToSet(e.kept)), e, "Fork")
      /\ l' = l + 1 /\ st' = S2 /\ hv' = hv
-     /\ aux' = [aux EXCEPT !.dirty = @ \cup DOMAIN S2.w, !.pre = st, !.hvpre = hv, !.ope = E]
+     /\ aux' = [aux EXCEPT !.dirty = @ \cup DOMAIN S2.w, !.pre = st, !.hvpre = hv, !.ope = E,
+                            !.mustRevert = @ \cup UNION {{<<x, t>> : t \in gone(x)} : x \in DOMAIN S2.w}]
 TRestore ==
   /\ IsEv("restore")
   /\ Ok(E) => MatchState(Restore(st, E.w, E.from), E, "Restore")
@@ -528,6 +533,15 @@ TScan ==
           /\ (w \in aux.fresh) => Check(RestoredExact(S2, w, Utxo2, hOf), "C16", "RestoredExact", e, "")
           /\ repeated => Check([S2.w[w] EXCEPT !.scanned = 0] = [st.w[w] EXCEPT !.scanned = 0], "C16", "ScanIdempotent", e, "")
           /\ Check(RevertedReported(st, S2, w, Utxo2), "C18", "RevertedReported", e, "scan")
+          \* history: payments a reorganisation removed and that are still gone must be reverted by now
+          /\ Check(\A p \in aux.mustRevert :
+                      (p[1] = w /\ p[2] \in DOMAIN S2.w[w].txs /\ S2.w[w].txs[p[2]].ty \in {"TxReceived", "TxReverted"}
+                       /\ ~KernelOnChain(S2, S2.w[w].txs[p[2]].kern, MaxOf(S2.w[w].txs[p[2]].minh, 0), Len(S2.chain)))
+                        => (S2.w[w].txs[p[2]].ty = "TxReverted" /\ ~S2.w[w].txs[p[2]].conf
+                            /\ \A k \in DOMAIN S2.w[w].outs :
+                                  (S2.w[w].outs[k].tx = S2.w[w].txs[p[2]].id /\ S2.w[w].outs[k].acct = S2.w[w].txs[p[2]].acct
+                                   /\ ~S2.w[w].outs[k].cb /\ OID(S2, w, k) \notin Utxo2) => S2.w[w].outs[k].st = "Reverted"),
+                   "C18", "RevertedReportedAfterFaults", e, "scan")
      /\ IF ~CheckM THEN TRUE
         ELSE LET r == Scan(st, w, IF e.start < 0 THEN 1 ELSE e.start, e.del) IN
              /\ CheckMatch(Ok(e), e, "Scan:res")
@@ -548,7 +562,7 @@ TOther == /\ l <= Len(Rec) /\ Rec[l].ev \notin Known
           /\ Step(hv)
 
 TInit == /\ l = 1 /\ st = [w |-> <<>>, chain |-> <<>>, pool |-> {}, body |-> <<>>, reg |-> <<>>, nrep |-> <<>>]
-         /\ hv = EmptyHist({}) /\ aux = [nodeUp |-> TRUE, dirty |-> {}, pre |-> <<>>, hvpre |-> EmptyHist({}), ope |-> <<>>, fresh |-> {}]
+         /\ hv = EmptyHist({}) /\ aux = [nodeUp |-> TRUE, dirty |-> {}, pre |-> <<>>, hvpre |-> EmptyHist({}), ope |-> <<>>, fresh |-> {}, mustRevert |-> {}]
 TNext == \/ TReset \/ TInitSend \/ TLock \/ TReceive \/ TFinalize \/ TCancel \/ TPost \/ TMine \/ TNode
          \/ TRefresh \/ TAccount \/ TBuildCoinbase \/ TIssueInvoice \/ TProcessInvoice \/ TCrash \/ TTrunc \/ TFork \/ TRestore \/ TDiverge \/ TScan \/ TOther
 TSpec == TInit /\ [][TNext]_tvars
